@@ -16,6 +16,8 @@ stream of choices (`List Nat`): every iteration order the hash map can produce c
 stream. The output type is C08's `LaDfa`. -/
 namespace ParolModel
 
+deriving instance DecidableEq for LaDfa
+
 /-! ### `LookaheadDFA` -/
 
 structure Edge where
